@@ -104,7 +104,9 @@ def container_text(scn, rows, fault):
             at = fault["at"]
             return "".join("".join(r) + sep for r in rows[:at]) + "".join(rows[at]) + "x" * len(sep) + "".join("".join(r) + sep for r in rows[at + 1:])
         text = "".join("".join(r) + sep for r in rows)
-        if fault:
+        if isinstance(fault, dict) and fault["kind"] == "blanktail":
+            text += " "  # an incomplete record that consists of a blank
+        elif fault:
             text += "x"  # an incomplete record
         return text
     raise core.MachineryError("container for %s not available here" % scn["format"])
